@@ -137,15 +137,24 @@ def gen_history(rng, cfg, length):
     declared = []
     order = names[:]
     rng.shuffle(order)
+    late = []
     for nm in order:
         c = cfg["channels"][nm]
         it = pick(rng, [None, qids[0], qids[-1]]) if c["local"] else None
+        if declared and rng.random() < 0.25:
+            late.append(("declare", nm, nm, it))      # declared in the middle of the history
+            continue
         ops.append(("declare", nm, nm, it))
         declared.append(nm)
     if cfg.get("dmm") and rng.random() < 0.7:
         ops.append(("dmm", {q: round(rng.random(), 2) for q in qids}))
         declared.append("dmm_0")
-    for _ in range(length):
+    for step in range(length):
+        if late and (rng.random() < 0.2 or step == length - 2):
+            op = late.pop()
+            ops.append(op)
+            declared.append(op[1])
+            continue
         ch = pick(rng, declared)
         r = rng.random()
         if ch == "dmm_0":
@@ -180,6 +189,33 @@ def gen_history(rng, cfg, length):
         else:
             ops.append(("readonly", pick(rng, ["str", "duration", "sample", "serialize", "phase_ref"]), ch))
     return ops
+
+
+def scripted_histories(rng):
+    """a few hand-written edge histories that random generation reaches rarely (run first on every run)"""
+    def eom_cfg(buf=None, clock=4, mind=16, maxseq=None):
+        return dict(channels={"ryd_glob": dict(kind="rydberg", local=False, clock_period=clock, min_duration=mind, max_duration=None, mod_bandwidth=4.0,
+                                               max_amp=60.0, max_abs_detuning=125.0, min_avg_amp=0, custom_phase_jump_time=None,
+                                               eom=dict(mod_bandwidth=30.0, custom_buffer_time=buf, multiple_beam_control=True, beams=2)),
+                              "ram_loc": dict(kind="raman", local=True, clock_period=4, min_duration=16, max_duration=None, mod_bandwidth=4.0, max_amp=60.0,
+                                              max_abs_detuning=125.0, min_avg_amp=0, custom_phase_jump_time=None, min_retarget_interval=220, fixed_retarget_t=0, max_targets=1)},
+                    max_sequence_duration=maxseq, n_atoms=3, dmm=None)
+    for buf in (None, 240):
+        c = eom_cfg(buf)
+        # EOM switched on and off on a still-empty channel: the block closes at t = 0
+        yield c, [("declare", "ryd_glob", "ryd_glob", None), ("enable_eom", "ryd_glob", 5.0, 0.0, 0.0, False), ("disable_eom", "ryd_glob", False),
+                  ("eom_pulse", "ryd_glob", 100, 0.0, "min-delay", False), ("disable_eom", "ryd_glob", False), ("add", ("const", 100, 1.0, 0.0, 0, 0), "ryd_glob", "min-delay")]
+        yield c, [("declare", "ryd_glob", "ryd_glob", None), ("add", ("const", 100, 1.0, 0.0, 0, 0), "ryd_glob", "min-delay"),
+                  ("enable_eom", "ryd_glob", 5.0, 0.0, -20.0, True), ("eom_pulse", "ryd_glob", 100, 1.0, "min-delay", True), ("delay", 40, "ryd_glob", False),
+                  ("modify_eom", "ryd_glob", 8.0, 4.0, 15.0, True), ("eom_pulse", "ryd_glob", 52, 0.0, "no-delay", True), ("disable_eom", "ryd_glob", True),
+                  ("add", ("const", 100, 1.0, 0.0, 1.0, 0), "ryd_glob", "min-delay")]
+    c = eom_cfg()
+    # phase shifts between pulses on two channels sharing an atom; a channel declared after shifts were applied
+    yield c, [("declare", "ryd_glob", "ryd_glob", None), ("add", ("const", 400, 1.0, 0.0, 0, 0.5), "ryd_glob", "min-delay"),
+              ("phase_shift", 1.0, ["q0", "q1"], "ground-rydberg"), ("declare", "ram_loc", "ram_loc", "q1"),
+              ("add", ("const", 100, 1.0, 0.0, 0, 0), "ryd_glob", "no-delay"), ("phase_shift", 0.5, ["q1"], "digital"),
+              ("add", ("const", 52, 1.0, 0.0, 1.0, 0), "ram_loc", "no-delay"), ("target", ["q1"], "ram_loc"), ("target", ["q2"], "ram_loc"),
+              ("add", ("const", 52, 1.0, 0.0, 1.0, 0), "ram_loc", "min-delay"), ("measure", "ground-rydberg"), ("delay", 100, "ram_loc", False)]
 
 
 def apply_op(seq, op, ctx):
@@ -318,15 +354,38 @@ def main(argv):
         (reproduced if any(f.get("known") == k["id"] for f in fs) else stale).append(k["id"])
     rng = random.Random(1000003 * seed + 17)
     budget = {"quick": 25.0, "thorough": 600.0}[tier]
+    if prop == "C16":
+        import c16
+
+        def km(msg, kind, d):
+            for k in known:
+                if k.get("concrete_pattern") and k["concrete_pattern"] in msg and (k.get("kinds") is None or kind in k["kinds"]) and (k.get("durations") is None or d in k["durations"]):
+                    return k["id"]
+            return None
+        failures, evals, distinct, samples = c16.run(rng, budget, km)
+        repro = sorted({f["known"] for f in failures if f.get("known")})
+        out = dict(failures=[dict(prop=prop, clause="(witness of listed finding reproduces)", known=i, step=-1, op=None) for i in repro] + [f for f in failures if not f.get("known")][:12],
+                   stale_findings=[k["id"] for k in known if k["id"] not in repro],
+                   summary=dict(kind="bounded stand-in (never counted as proved)", evaluations=evals, distinct_nontrivial=distinct,
+                                rule="every waveform class x duration 1..40 exhaustively, then random durations up to 1000; parameters drawn from small boundary-biased sets; "
+                                     "concrete contracts: sample count, finiteness, documented values, indexing/slicing against Python's own, change_duration, scaling, "
+                                     "from_max_val, Pulse ranges, ArbitraryPhase reconstruction; distinct = distinct (class, duration)",
+                                bound=f"{budget}s wall; durations 1..40 exhaustive", samples=samples))
+        print(json.dumps(out, default=str))
+        return 0
     n_hist = evals = 0
     distinct = set()
     failures, samples = [], []
     t0 = time.time()
     props = checks.PROP_GROUP.get(prop, [prop])
+    scripted = list(scripted_histories(rng))
     while time.time() - t0 < budget:
         hint = pick(rng, hints) if hints and rng.random() < 0.5 else None
-        cfg = gen_config(rng, hint)
-        ops = gen_history(rng, cfg, pick(rng, [4, 8, 12, 20]))
+        if scripted:
+            cfg, ops = scripted.pop(0)
+        else:
+            cfg = gen_config(rng, hint)
+            ops = gen_history(rng, cfg, pick(rng, [4, 8, 12, 20]))
         try:
             fs = run_history(cfg, ops, props, known)
             if prop == "C01" and not fs and rng.random() < 0.5:
